@@ -348,10 +348,8 @@ def run(ctx):
         xalts = []
         for (pc, v) in alts:
             res = dict(v[2]).get("result") if v[0] == "nt" else None
-            if res is None:
-                xalts.append((pc, None))
-            else:
-                xalts.extend(expand_merges(interp, res, pc))
+            from ..events import expand_all_merges
+            xalts.extend(expand_all_merges(interp, pc, res))
         try:
             for n in (1, 2, 3, 4):
                 for r in range(0, 3):
@@ -445,18 +443,11 @@ def _times(ctx, fi, alts):
     from ..events import expand_merges
     interp = ctx.model.interp
     flat_alts = []
+    from ..events import expand_all_merges
     for (pc, v) in alts:
-        if v[0] != "nt":
-            flat_alts.append((pc, v))
-            continue
-        st0 = dict(v[2]).get("started")
-        if st0 is not None:
-            for (pc2, st2) in expand_merges(interp, st0, pc):
-                d2 = dict(v[2])
-                d2["started"] = st2
-                flat_alts.append((pc2, ("nt", v[1], tuple(d2.items()))))
-        else:
-            flat_alts.append((pc, v))
+        # merges (branches of nested pure helpers) expanded consistently in
+        # the path condition and in every field of the record
+        flat_alts.extend(expand_all_merges(interp, pc, v))
     bad = None
     for (pc, v) in flat_alts:
         if v[0] != "nt":
